@@ -191,14 +191,23 @@ CHECKS = {
              "from fontMath's source; one normalised location used for kerning, info and glyphs. Interpolation arithmetic is not decided.",
         design_ref="DESIGN.md §5 C19", note=STATIC_NOTE,
         technique="static analysis: return-path rules with guard facts, freshness of stored values, event-sequence matching for the swap, two-way remap shape rule, parsed third-party (fontMath) method shapes"),
+    "C04": dict(
+        text="Only the clauses whose truth is in the shape of the code: metrics tables are built before the headers that summarise them; "
+             "hmtx / vmtx hold one (rounded advance, bearing-from-own-box) record per glyph of the compiled set; hhea / vhea count every "
+             "glyph's advance (also glyphs without outline), take bearings / extents only from glyphs with a box, with the spec formulas "
+             "(extent = bearing + box size, second bearing = advance - bearing - box size), and each header field is the max / min of "
+             "its own list; the long-metric count is len(advances) minus the trailing run equal to the last, at least 1; font box = "
+             "union of glyph boxes, head gets it rounded in its own roles; OS/2 first / last index = min / max code point (capped), "
+             "maxp.numGlyphs, post 2.0 names and VORG default / records follow the glyph data. The byte round trip save -> reload -> "
+             "save, the bounding-box arithmetic of the pens and the values fontTools recalculates at compile time are NOT decided "
+             "(runtime quantities; no static argument in reach).",
+        design_ref="DESIGN.md §5 C04", note=STATIC_NOTE,
+        technique="static analysis: dominance/order rule, loop-shape and formula-shape matching, list-to-field role table, guard facts"),
 }
 
 _TODO = "check not built yet in this session (static rules designed in DESIGN.md §5; will be claimed when the rule set is armed)"
-NOT_APPLICABLE = {
-    "C04": "every clause is arithmetic over per-glyph runtime metrics or a save/reload byte round-trip through fontTools; no "
-           "structural clause of independent value is visible in code shape (DESIGN.md §5 C04)",
-}
-for _p in ["C01", "C02", "C05", "C06", "C07", "C08", "C09", "C10", "C11", "C12", "C13", "C14", "C15", "C16", "C17", "C18", "C19", "C20"]:
+NOT_APPLICABLE = {}
+for _p in ["C01", "C02", "C04", "C05", "C06", "C07", "C08", "C09", "C10", "C11", "C12", "C13", "C14", "C15", "C16", "C17", "C18", "C19", "C20"]:
     if _p not in CHECKS:
         NOT_APPLICABLE[_p] = _TODO
 
